@@ -35,12 +35,13 @@ TIES = {
     "C02": RUN_TIE + PIPE_TIE + WALK_TIE,
     "C03": RUN_TIE + PIPE_TIE + OPT_TIE + ["Bridge/BrTables.vo"],
     "C04": FRONT_TIE + CHECK_TIE + OPT_TIE + RUN_TIE + PIPE_TIE + WALK_TIE + ["Bridge/BrSource.vo"],
-    "C06": ["Bridge/BrRuntime.vo", "Bridge/BrSchemes.vo"],
+    "C06": ["Bridge/BrRuntime.vo", "Bridge/BrSchemes.vo"] + OPT_TIE + PIPE_TIE,   # round 7: constants are materialised by the optimizer passes, in the order expr.Compile runs them
     "C07": ["Bridge/BrRuntime.vo"],
-    "C10": PIPE_TIE + OPT_TIE + ["Bridge/BrTables.vo"],
+    "C10": PIPE_TIE + OPT_TIE + ["Bridge/BrTables.vo", "Bridge/BrChecker.vo"],   # round 7: the operator patcher and type-directed visitors read the checker's types
     "C13": FRONT_TIE + CHECK_TIE + RUN_TIE + PIPE_TIE,
+    "C14": ["Bridge/BrSchemes.vo", "Bridge/BrVMSteps.vo"] + OPT_TIE,   # round 7: arithmetic reaches the helpers through the code-generation schemes and the folding pass
     "C15": RUN_TIE + CHECK_TIE + PIPE_TIE + OPT_TIE,
-    "C16": RUN_TIE + ["Bridge/BrChecker.vo"],
+    "C16": RUN_TIE + FRONT_TIE + ["Bridge/BrChecker.vo"],   # round 7: a member name is accepted only if the lexer and parser read it as a name
     "C17": RUN_TIE + PIPE_TIE + WALK_TIE + OPT_TIE + ["Bridge/BrChecker.vo"],
     "C18": RUN_TIE + PIPE_TIE + OPT_TIE,
 }
